@@ -71,7 +71,9 @@ fn gen(rng: &mut Rng) -> J {
             0 => { let v = rng.edge_u64(); match rng.below(3) { 0 => { let mut b = vec![0x1b]; b.extend(v.to_be_bytes()); b } 1 => vec![0x18, (v % 24) as u8], _ => { let mut b = vec![0xc2, 0x48]; b.extend(v.to_be_bytes()); b } } }
             1 => { let n = rng.below(70) as usize; let body = rng.bytes(n); if n <= 23 { let mut b = vec![0x58, n as u8]; b.extend(body); b } else { let mut b = vec![0x5f, 0x58, n as u8]; b.extend(body); b.push(0xff); b } }
             2 => { let n = rng.below(20) as usize; let mut b = vec![0x5f]; let body = rng.bytes(n); for ch in body.chunks(7) { b.push(0x40 + ch.len() as u8); b.extend(ch); } b.push(0xff); b }
-            3 => vec![0x20 + rng.below(24) as u8],
+            // negative integers: minimal, and with every wider head than needed; negative big integers that fit 64 bits
+            3 => { let v = rng.below(24) as u8; match rng.below(6) { 0 => vec![0x20 + v], 1 => vec![0x38, v], 2 => vec![0x39, 0, v], 3 => vec![0x3a, 0, 0, 0, v],
+                     4 => vec![0x3b, 0, 0, 0, 0, 0, 0, 0, v], _ => vec![0xc3, 0x42, 0, v] } }
             4 => { let n = rng.below(4); let mut b = if rng.chance(1, 2) { vec![0x80 + n as u8] } else { vec![0x9f] }; let indef = b[0] == 0x9f; for _ in 0..n { b.extend(datum(rng, depth + 1)); } if indef { b.push(0xff); } b }
             5 => { let n = rng.below(3); let mut b = vec![0xa0 + n as u8 + if rng.chance(1, 3) && n > 0 { 0 } else { 0 }]; for i in 0..n { b.extend(vec![(9 - i) as u8]); b.extend(datum(rng, depth + 1)); } b }
             6 => { let alt = rng.below(7); let n = rng.below(3); let mut b = vec![0xd8, 0x79 + alt as u8]; b.push(if rng.chance(1, 2) { 0x9f } else { 0x80 + n as u8 }); let indef = *b.last().unwrap() == 0x9f; for _ in 0..n { b.extend(datum(rng, depth + 1)); } if indef { b.push(0xff); } b }
